@@ -29,6 +29,7 @@ var (
 	flagShard   = flag.String("verif.shard", "0/1", "i/n: this process is shard i of n (deterministic enumerations are dealt round-robin)")
 	flagNoExh   = flag.Bool("verif.noexh", false, "skip deterministic enumerations (development only)")
 	flagKnown   = flag.String("verif.known", "", "path of known_findings.json (open findings are excluded by construction and counted)")
+	flagInflight = flag.String("verif.inflight", "", "write the JSON of the case in flight to this file before running it (race builds: the process halts on the first report)")
 )
 
 // openFindings holds the ids of the findings listed as open in known_findings.json.
@@ -276,6 +277,9 @@ func safeRun[C any](run func(C) *Result, c C) (res *Result) {
 func execCase[C any](spec Spec[C], c C) (*Result, []byte) {
 	cj := caseJSON(c)
 	rec.current.Store(&cj)
+	if *flagInflight != "" {
+		os.WriteFile(*flagInflight, cj, 0o644)
+	}
 	rec.began.Store(time.Now().UnixNano())
 	res := safeRun(spec.Run, c)
 	rec.began.Store(0)
